@@ -10,7 +10,7 @@ import warnings
 
 import wn
 
-from .. import env, mk, runner, universe
+from .. import env, mk, runner, universe, xmlw
 from ..refmodel import Store
 
 PROP = 'C10'
@@ -30,8 +30,19 @@ def C1x():
     return c
 
 
+def X1x():
+    # the shared extension has a sense on (base entry, base synset) and one on (own entry, own synset); navigation
+    # also needs the two mixed shapes: own entry -> base synset, base entry -> own synset
+    x = universe.X1(False)
+    own = next(e for e in x['entries'] if e['id'] == 'x-e1')
+    own['senses'].append(mk.sense('x-s3', 'a-ss2'))
+    ext = next(e for e in x['entries'] if e['id'] == 'a-e1')
+    ext['senses'].append(mk.sense('x-s4', 'x-ss1'))
+    return x
+
+
 def docs_():
-    return {'a:1': universe.A1(), 'a:2': universe.A2(), 'x:1': universe.X1(False), 'y:1': universe.Y1(),
+    return {'a:1': universe.A1(), 'a:2': universe.A2(), 'x:1': X1x(), 'y:1': universe.Y1(),
             'b:1': universe.B1(), 'c:1': C1x()}
 
 
@@ -67,6 +78,11 @@ def check(case):
                             x_.senses(), x_.synsets()
                         for x_ in wt.synsets():
                             x_.senses(), x_.hypernyms()
+                elif step[0] == 'file':
+                    # add through wn.add() from an XML file (the other public entry point)
+                    r = mk.resource([D[step[1]]], '1.3')
+                    env.add(env.write_file(f"{step[1].replace(':', '_')}.xml", xmlw.serialize(r)))
+                    st.add_resource(r)
                 else:
                     env.remove(step[1])
                     st.remove([step[1]])
@@ -320,6 +336,13 @@ def space(tier, seed):
                                 (['c:1', 'a:1', 'x:1'], 'x:1', ['a:2', 'b:1']), (['a:1', 'x:1'], 'a:1', ['a:2', 'a:1'])):
         cases.append({'install': first + [['touch'], ['remove', victim]] + then})
         cases.append({'install': first + [['touch'], ['remove', victim]] + then + [['touch'], ['remove', then[-1]], first[-1] if first[-1] != victim else victim]})
+    # query-then-add histories (no removal): everything is navigated before each further lexicon arrives, through
+    # both public entry points (wn.add_lexical_resource = plain step, wn.add of a file = ['file', spec])
+    T = ['touch']
+    for o in (['a:1', T, 'x:1'], ['a:1', T, ['file', 'x:1']], [['file', 'a:1'], T, 'x:1', T, ['file', 'y:1']],
+              ['a:1', 'b:1', T, ['file', 'x:1'], T, 'y:1', T, 'a:2'], ['b:1', T, 'a:1', T, 'a:2', T, 'x:1', T, ['file', 'c:1']],
+              [['file', 'a:1'], ['file', 'x:1'], T, 'y:1', T, ['file', 'c:1']]):
+        cases.append({'install': o})
     for r in range(1, 6):
         for sub in itertools.combinations(specs, r):
             if 'x:1' in sub and 'a:1' not in sub:
